@@ -76,6 +76,21 @@ def ensure_repo_artifacts():
     return art
 
 
+def ensure_feature_tests_lib():
+    """staticlib of the repository's own feature_tests bridge crate (its C++ drivers are the corpus leg of C02)"""
+    root = build_root()
+    tdir = os.path.join(root, "repo-target")
+    env = _env()
+    env["CARGO_TARGET_DIR"] = tdir
+    env["RUSTFLAGS"] = "--cfg %s" % GUARD
+    with _Lock("cargo-repo"):
+        _run(["cargo", "build", "--offline", "-q", "-p", "diplomat-feature-tests"], repo(), env, "feature_tests crate")
+    lib = os.path.join(tdir, "debug", "libdiplomat_feature_tests.a")
+    if not os.path.exists(lib):
+        raise Inconclusive("artifact missing after build: %s" % lib)
+    return lib
+
+
 def _rs_src():
     """The /verif/rs workspace; for a non-default DV_REPO a copy with the path dependencies rewritten."""
     src = os.path.join(VERIF, "rs")
